@@ -65,6 +65,18 @@ def count_family():
         out.append(("map-entries/%d" % n, "var m = {%s};\nprint(m.len());\nprint(m.get(%d));\n" % (", ".join("%d: %d" % (i, i * 2) for i in range(n)), n - 1)))
         out.append(("interp-parts/%d" % n, "var s = \"%s\";\nprint(s.len());\n" % "".join("${%d}" % (i % 10) for i in range(n))))
         out.append(("interp-mixed/%d" % n, "var s = \"%s\";\nprint(s.len());\nprint(s[0..6]);\n" % "".join("a${%d}" % (i % 10) for i in range((n + 1) // 2))))
+        # every arrangement of literal pieces around the ${} parts: leading / separating / trailing text each count
+        # as a part, and a following declaration shows whether the operand stack is where the compiler thinks
+        for lead in (0, 1):
+            for sep in (0, 1):
+                for trail in (0, 1):
+                    for total in (n,):
+                        k = (total - lead - trail + sep) // (1 + sep)
+                        if k < 1:
+                            continue
+                        body = ("L" if lead else "") + ("s" if sep else "").join("${%d}" % (i % 10) for i in range(k)) + ("T" if trail else "")
+                        out.append(("interp-shape/%d%d%d/%d" % (lead, sep, trail, total),
+                                    "fn f(v) {\n    var a = \"first\";\n    var s = \"%s\";\n    var b = \"last\";\n    return [a, s.len(), b];\n}\nprint(f(1));\n" % body))
         decls = "\n".join("    var l%d = %d;" % (i, i) for i in range(n))
         out.append(("locals/%d" % n, "fn f() {\n%s\n    return l0 + l%d;\n}\nprint(f());\n" % (decls, n - 1)))
         out.append(("locals-block/%d" % n, "{\n%s\n    print(l0 + l%d);\n}\n" % (decls, n - 1)))
